@@ -109,7 +109,8 @@ P = {
             "Coq proof over translated kernels (256-sweeps lifted by induction; borrow-chain lemma), + native exhaustive sweeps"),
     "C13": ("proof",
             "Theorems backend_independent, profile_independent, cfg_exactly_one_provider (all 64 cfg environments, translated lattice), "
-            "build_script_table, runtime_cell_safe (any number of threads, every interleaving, per-location coherence) (Thm/C13.v). PARTIAL: "
+            "build_script_table, runtime_cell_safe and runtime_cell_as_translated (get_runtime_feature TRANSLATED into an instruction language; an "
+            "abstract interpreter proved sound for every program of it: any number of threads, every interleaving, per-location coherence) (Thm/C13.v). PARTIAL: "
             "hardware memory model / feature detection / codegen are modelled; alignment-freedom is enforced by the translator.",
             "Coq proof (refinement corollary; finite lattice by vm_compute; invariant over traces), + 7 build variants x corpus digest, races"),
     "C14": ("proof",
